@@ -7,7 +7,9 @@ import (
 )
 
 const (
-	DefaultHealthCheckerTimeout = 5 * time.Second
+	// upper bound only: every check runs under its endpoint's check_timeout, which validation
+	// allows up to 30 s; a shorter client timeout would cut those checks off early
+	DefaultHealthCheckerTimeout = 30 * time.Second
 	SlowResponseThreshold       = 10 * time.Second
 
 	HealthyEndpointStatusRangeStart = 200
